@@ -220,9 +220,10 @@ def run(w, rep, tier):
     rep.rule("C14.rates", "d zB/dt along the trajectory (a' = j) equals q xB - p yB")
     rep.rule("C14.SIB", "f_ref and mr_ref_traj agree output by output at the constants of bezier.py")
     rep.rule("C14.helpers", "auto-level, Euler-to-quaternion and velocity-mode set-points are SO3Quat.from_Euler of the documented triple (unit quaternion by C07)")
-    check_position_controllers(w, rep)
-    check_flatness(w, rep)
-    check_helpers(w, rep)
+    with with_maxdeg(30):
+        check_position_controllers(w, rep)
+        check_flatness(w, rep)
+        check_helpers(w, rep)
     rep.floor("C14.frame", 14)
     rep.floor("C14.SIB", 6)
     rep.undecided_clause("the degenerate branches (|T| < tol, thrust parallel to the heading): the fallbacks are not orthonormal in general (yB := xW is not perpendicular to zB)")
